@@ -318,3 +318,32 @@ fn k_wire_merge__inputs_wired_after_a_synchronous_end_are_not_held() {
   assert!(f_calls.len() == 0, "wire.merge.late: an operator closure of an input wired after the end was still held and ran");
   kani::cover!(true, "harness reaches its end");
 }
+
+// PROBES (open known findings, C02 composition clause): the inner observable handed out by window_with_count / group_by keeps
+// mirroring its window / group only while the OUTER subscription is alive: `.take(1)` on the outer stream stops the source, and the
+// window / group already handed out never gets its remaining items or its terminal.
+#[kani::proof]
+#[kani::unwind(6)]
+fn k_wire_probe__window_handed_out_survives_the_outer_stream() {
+  let log = Log::new();
+  let _s = observables::from_iter([1u8, 2, 3].into_iter()).window_with_count(2).take(1).flat_map(|w| w).subscribe(
+    move |x: u8| log.push(EV_N | x as u32),
+    move |e: RxError| log.push(EV_E | err_id(&e)),
+    move || log.push(EV_C),
+  );
+  assert!(log.is(&[EV_N | 1, EV_N | 2, EV_C]), "wire.window.outer: window_with_count(2).take(1).flat_map(|w| w) over 1,2,3 must deliver the first window: 1, 2, complete");
+  kani::cover!(true, "harness reaches its end");
+}
+
+#[kani::proof]
+#[kani::unwind(6)]
+fn k_wire_probe__group_handed_out_survives_the_outer_stream() {
+  let log = Log::new();
+  let _s = observables::from_iter([1u8, 2, 3].into_iter()).group_by(|x| x % 2).take(1).flat_map(|g| g).subscribe(
+    move |x: u8| log.push(EV_N | x as u32),
+    move |e: RxError| log.push(EV_E | err_id(&e)),
+    move || log.push(EV_C),
+  );
+  assert!(log.is(&[EV_N | 1, EV_N | 3, EV_C]), "wire.group_by.outer: group_by(x % 2).take(1).flat_map(|g| g) over 1,2,3 must deliver the first group: 1, 3, complete");
+  kani::cover!(true, "harness reaches its end");
+}
